@@ -1131,6 +1131,9 @@ func (l *Lowerer) lowerOverride(o *parser.OverrideDecl) error {
 	// in buildGlobalExpressions (to create the global expression for this override).
 	if o.Init != nil {
 		initExpr := l.buildOverrideInitExpr(o.Init)
+		if initExpr != nil && l.overrideInitRefersTo(initExpr, overrideHandle, 0) {
+			return fmt.Errorf("override %s: initializer depends on the override itself (cyclic declaration)", o.Name)
+		}
 		if initExpr != nil {
 			if l.overrideInitExprs == nil {
 				l.overrideInitExprs = make(map[ir.OverrideHandle]ir.OverrideInitExpr)
@@ -1140,6 +1143,30 @@ func (l *Lowerer) lowerOverride(o *parser.OverrideDecl) error {
 	}
 
 	return nil
+}
+
+// overrideInitRefersTo reports whether expr mentions the override target,
+// directly or through the initializers of the overrides it references.
+// WGSL forbids such cycles; building global expressions for one would recurse
+// without end.
+func (l *Lowerer) overrideInitRefersTo(expr ir.OverrideInitExpr, target ir.OverrideHandle, depth int) bool {
+	if depth > len(l.module.Overrides) {
+		return true // longer than any acyclic chain
+	}
+	switch e := expr.(type) {
+	case ir.OverrideInitRef:
+		if e.Handle == target {
+			return true
+		}
+		if next, ok := l.overrideInitExprs[e.Handle]; ok {
+			return l.overrideInitRefersTo(next, target, depth+1)
+		}
+	case ir.OverrideInitBinary:
+		return l.overrideInitRefersTo(e.Left, target, depth) || l.overrideInitRefersTo(e.Right, target, depth)
+	case ir.OverrideInitUnary:
+		return l.overrideInitRefersTo(e.Expr, target, depth)
+	}
+	return false
 }
 
 // inferOverrideType infers the concrete type for an override from its init expression.
